@@ -49,7 +49,8 @@ Classes (added for C19):
   const m = require('./m.js'); m.f(a)       import js_m as m; m.f(a)                 (call by the contract of js_m.f)
   this.f.m(a), this.m(a), x.m(a)            the same method call, for m not a JavaScript string/array method: accepted by the executor only when the
                                             contracts declare the receiver's class and give m an (assumed) contract; an object-literal argument
-                                            (options) is passed as the opaque constant '{...}'
+                                            (options) is passed as the opaque constant '{...}'; a method the file calls both with and without
+                                            arguments is rendered m__0 for the call without (decoder.decode() is the flush, not decode(chunk, opts))
   async m() / await e                       the method / e          (A-JS-AWAIT: an awaited call has completed when the next
                                                                      statement runs; interleaving with OTHER tasks touching the same
                                                                      objects is outside the properties, which exclude concurrent queries)
@@ -109,6 +110,7 @@ class Translator(object):
         self.local_regex = {}
         self.match_vars = set()
         self.tuple_vars = set()
+        self.arities = {}             # method name -> set of argument counts it is called with in the file
         self.required = {}            # local name -> module name, for `const m = require('./m.js')`
         self.str_consts = set()       # module-level const names initialised with a certainly-string expression
         self.class_names = set()      # classes declared in the module: new C(...) -> C(...)
@@ -545,7 +547,8 @@ class Translator(object):
                                                          or (o['type'] == 'Identifier' and o['name'] not in self.match_vars)):
                     # a method of an object the file does not define (decoder, stream, Buffer, a method stored in a field): kept as a method call;
                     # the executor accepts it only if the contracts declare the receiver's class and give that method an (assumed) contract
-                    return _loc(ast.Call(func=ast.Attribute(value=self.expr(o), attr=m, ctx=ast.Load()),
+                    mm = m + '__0' if (not args and len(self.arities.get(m, ())) > 1) else m      # a method called with and without arguments: two contracts
+                    return _loc(ast.Call(func=ast.Attribute(value=self.expr(o), attr=mm, ctx=ast.Load()),
                                          args=[self.expr(a) for a in args if a['type'] != 'ObjectExpression'] + [ast.Constant(value='{...}') for a in args if a['type'] == 'ObjectExpression'], keywords=[]), e)
                 raise Unsupported('method .%s/%d at line %d' % (m, len(args), e['loc']['start']['line']))
             raise Unsupported('call form')
@@ -579,6 +582,17 @@ def translate_file(path, module_name):
             for v in x:
                 walk(v)
     walk(tree)
+
+    def walk_calls(x):
+        if isinstance(x, dict):
+            if x.get('type') == 'CallExpression' and x['callee'].get('type') == 'MemberExpression' and not x['callee'].get('computed'):
+                tr.arities.setdefault(x['callee']['property']['name'], set()).add(len(x['arguments']))
+            for v in x.values():
+                walk_calls(v)
+        elif isinstance(x, list):
+            for v in x:
+                walk_calls(v)
+    walk_calls(tree)
     # module-level constants first: string constants and `new RegExp(<string expr>)`
     REQ = {'./csv_utils.js': 'js_csv_utils', './rbql.js': 'js_rbql', './rbql_csv.js': 'js_rbql_csv'}
     for n in tree['body']:
